@@ -7,6 +7,8 @@ import FxVerif.Proofs.C14Sim
 import FxVerif.Proofs.C14SimInit
 import FxVerif.Proofs.C14Inv
 import FxVerif.Proofs.C14InvQ
+import FxVerif.Proofs.C14InvS
+import FxVerif.Proofs.C14InvI
 /-!
 # C14 — account migration moves everything, once, to the address that authorised it
 
@@ -851,6 +853,119 @@ theorem queues_rewritten_time_slices_reachable {s0 : State} (h0 : QInv s0) (befo
   exact ⟨a1, a2, a3, a4, hs', qInv_run hs' later⟩
 
 
+/-! ## starting infos and unbonding ids: invariants of every history -/
+
+/-- every operation keeps: a starting info exists only with its delegation (`SiInv`), and the unbonding-id index agrees
+with the entries of the records — every entry indexed at its record's key, every index entry backed by an entry, ids
+below the counter, ids of a record distinct (`IdInv`) -/
+theorem siIdInv_step {s : State} (h : SiInv s ∧ IdInv s) (op : Op) : SiInv (step cfg s op).1 ∧ IdInv (step cfg s op).1 := by
+  obtain ⟨hs, hi⟩ := h
+  have keep : ∀ (o : Option State), (∀ s', o = some s' → SiInv s' ∧ IdInv s') →
+      SiInv (ofOpt s o).1 ∧ IdInv (ofOpt s o).1 := by
+    intro o ho
+    cases o with
+    | none => exact ⟨hs, hi⟩
+    | some s' => exact ho s' rfl
+  have same : ∀ s' : State, s'.dels = s.dels → s'.startInfo = s.startInfo → IFrame s s' → SiInv s' ∧ IdInv s' :=
+    fun s' e1 e2 f => ⟨siInv_of_fields hs e1 e2, hi.frame f⟩
+  cases op with
+  | send x y d n =>
+    simp only [step]
+    apply keep
+    intro s' hh
+    cases hb : sendUnlocked s.bal (lockedOf s x d) x y d n <;> simp [hb] at hh
+    subst hh; exact same _ rfl rfl ⟨rfl, rfl, rfl, rfl⟩
+  | mint x d n => exact same _ rfl rfl ⟨rfl, rfl, rfl, rfl⟩
+  | delegate d v amt rw => exact keep _ (fun s' hh => ⟨siInv_delegate hs hh, hi.frame (iframe_delegate hh)⟩)
+  | undelegate d v amt rw =>
+    refine keep _ (fun s' hh => ⟨?_, idInv_undelegate hi hh⟩)
+    unfold undelegate at hh
+    split at hh
+    · cases hh
+    · simp only [] at hh
+      split at hh
+      · cases hh
+      · split at hh
+        · cases hh
+        · rename_i s1 h1
+          split at hh
+          · cases hh
+          · cases hh; exact siInv_of_fields (siInv_unbond hs h1) rfl rfl
+  | redelegate d x y amt r1 r2 =>
+    refine keep _ (fun s' hh => ⟨?_, idInv_redelegate hi hh⟩)
+    unfold redelegate at hh
+    split at hh
+    · cases hh
+    · split at hh
+      · cases hh
+      · simp only [] at hh
+        split at hh
+        · cases hh
+        · split at hh
+          · cases hh
+          · rename_i s1 h1
+            split at hh
+            · cases hh
+            · rename_i s2 h2
+              cases hh; exact siInv_of_fields (siInv_addShares (siInv_unbond hs h1) h2) rfl rfl
+  | withdraw d v rw => exact keep _ (fun s' hh => ⟨siInv_withdraw hs hh, hi.frame (iframe_withdraw hh)⟩)
+  | setWithdraw d w => exact same _ rfl rfl ⟨rfl, rfl, rfl, rfl⟩
+  | submit x dep =>
+    refine keep _ (fun s' hh => ?_)
+    unfold submit at hh
+    split at hh
+    · cases hh
+    · cases hh; exact same _ rfl rfl ⟨rfl, rfl, rfl, rfl⟩
+  | deposit x id amt =>
+    refine keep _ (fun s' hh => ?_)
+    unfold deposit at hh
+    split at hh
+    · cases hh
+    · split at hh
+      · cases hh
+      · split at hh
+        · cases hh
+        · cases hh; exact same _ rfl rfl ⟨rfl, rfl, rfl, rfl⟩
+  | vote x id =>
+    refine keep _ (fun s' hh => ?_)
+    unfold vote at hh
+    split at hh
+    · cases hh
+    · split at hh
+      · cases hh
+      · cases hh; exact same _ rfl rfl ⟨rfl, rfl, rfl, rfl⟩
+  | block dt => exact ⟨siInv_frame hs (sframe_endBlock s dt), idInv_endBlock hi dt⟩
+  | setPeriods dp vp => exact same _ rfl rfl ⟨rfl, rfl, rfl, rfl⟩
+  | migrate f t sg =>
+    simp only [step]
+    cases hm : migrate cfg s f t sg with
+    | error e => exact ⟨hs, hi⟩
+    | ok s' =>
+      have hto := target_without_staking_records hm
+      obtain ⟨hne, _, _, _, _, _, _, rfl⟩ := migrate_ok_inv hm
+      have hc2 : cfg.rewriteUnbId = true := by rw [cfg_from_code]
+      have hsB : SiInv (bankExecute cfg s f t) := siInv_of_fields hs rfl rfl
+      have hiB : IdInv (bankExecute cfg s f t) := hi.frame ⟨rfl, rfl, rfl, rfl⟩
+      exact ⟨siInv_of_fields (siInv_stakingExecute cfg hsB f t hne hto.1) rfl rfl,
+        (idInv_stakingExecute cfg hc2 hiB f t hne ⟨hto.2.1, hto.2.2⟩).frame ⟨rfl, rfl, rfl, rfl⟩⟩
+
+theorem siIdInv_run {s : State} (h : SiInv s ∧ IdInv s) (ops : List Op) : SiInv (run cfg s ops) ∧ IdInv (run cfg s ops) := by
+  induction ops generalizing s with
+  | nil => exact h
+  | cons op ops ih => exact ih (siIdInv_step h op)
+
+/-- a state without delegations, unbonding delegations, redelegations and unbonding ids satisfies both -/
+theorem siIdInv_base (s : State) (h1 : s.startInfo = []) (h2 : s.ubds = []) (h3 : s.reds = []) (h4 : s.unbId = []) :
+    SiInv s ∧ IdInv s := by
+  refine ⟨fun a v _ => by rw [h1]; rfl, ⟨?_, ?_, ?_, ?_, ?_, ?_⟩⟩
+  · intro k es e hg; rw [h2, get_nil] at hg; cases hg
+  · intro k es e hg; rw [h3, get_nil] at hg; cases hg
+  · intro id r hg; rw [h4, get_nil] at hg; cases hg
+  · intro id r hg; rw [h4, get_nil] at hg; cases hg
+  · intro k es hg; rw [h2, get_nil] at hg; cases hg
+  · intro k es hg; rw [h3, get_nil] at hg; cases hg
+
+
 /-! ## never_reused -/
 
 /-- every operation keeps existing migration records -/
@@ -997,6 +1112,68 @@ theorem later_behaviour_equal_holdings {s s' : State} {frm to : Addr} {sigOk : B
   · have := hs.startInfo.get_id (v, frm); simpa [swS, sw_frm] using this
   · have := hs.ubds.get_id (frm, v); simpa [swP, sw_frm] using this
   · have := hs.reds.get_id (frm, x, y); simpa [swP, sw_frm] using this
+
+
+/-! ## later_behaviour_equal for every reachable state -/
+
+/-- what remains to be assumed about the state in which the migration happens once the invariants are known: it is
+about things the staking keepers do not maintain — neither address is a module pool, no delegator-withdraw-address
+setting, deposit, vote or vesting schedule mentions the source or the target -/
+structure MigEnv (s : State) (frm to : Addr) : Prop where
+  modFix : ModFix frm to
+  wd_frm : get s.wdAddr frm = none
+  wd_to : get s.wdAddr to = none
+  wd_val : ∀ a w, get s.wdAddr a = some w → w ≠ frm ∧ w ≠ to
+  dep : ∀ p ∈ s.deposits, p.1.2 ≠ frm ∧ p.1.2 ≠ to
+  vote : ∀ p ∈ s.votes, p.2 ≠ frm ∧ p.2 ≠ to
+  vest_frm : get s.vest frm = none
+  vest_to : get s.vest to = none
+
+/-- the consistency hypothesis of `later_behaviour_equal` follows from the four invariants, the target being unknown to
+staking (which an accepted migration guarantees), and `MigEnv` -/
+theorem migWF_of_invariants {s : State} {frm to : Addr} (hx : IdxInv s) (hq : QInv s) (hs : SiInv s) (hi : IdInv s)
+    (hto : (∀ p ∈ s.dels, p.1.1 ≠ to) ∧ (∀ p ∈ s.ubds, p.1.1 ≠ to) ∧ (∀ p ∈ s.reds, p.1.1 ≠ to))
+    (env : MigEnv s frm to) : MigWF s frm to := by
+  have nd : ∀ v, get s.dels (to, v) = none := fun v => get_none_of_no_key _ _ (fun p hp e => hto.1 p hp (by rw [e]))
+  have nu : ∀ v, get s.ubds (to, v) = none := fun v => get_none_of_no_key _ _ (fun p hp e => hto.2.1 p hp (by rw [e]))
+  have nr : ∀ x, get s.reds (to, x) = none := fun x => get_none_of_no_key _ _ (fun p hp e => hto.2.2 p hp (by rw [e]))
+  have idwf := hi.idWF frm to ⟨hto.2.1, hto.2.2⟩
+  refine ⟨env.modFix, fun v => hx.del frm v, fun v e => ?_, fun v => hs frm v, fun v => hs to v (nd v),
+    fun v => hx.ubd frm v, fun v e => ?_, fun x => hx.rsrc frm x, fun x e => ?_, fun x => hx.rdst frm x, fun x e => ?_,
+    hq.u.nodup, fun p hp x hx' e => ?_, fun p hp x hx' e => ?_, hq.r.nodup, fun p hp x hx' e => ?_, fun p hp x hx' e => ?_,
+    idwf.id_ubd, idwf.id_red, idwf.id_of, idwf.id_to, env.wd_frm, env.wd_to, env.wd_val, env.dep, env.vote,
+    env.vest_frm, env.vest_to⟩
+  · obtain ⟨y, hy⟩ := (hx.del to v).mp e; rw [nd v] at hy; cases hy
+  · obtain ⟨y, hy⟩ := (hx.ubd to v).mp e; rw [nu v] at hy; cases hy
+  · obtain ⟨y, hy⟩ := (hx.rsrc to x).mp e; rw [nr x] at hy; cases hy
+  · obtain ⟨y, hy⟩ := (hx.rdst to x).mp e; rw [nr x] at hy; cases hy
+  · obtain ⟨es, hes, en, hen, het⟩ := hq.u.ann p hp x hx'
+    exact ⟨x.2, es, by rw [← e]; exact hes, en, hen, het⟩
+  · obtain ⟨es, hes, _⟩ := hq.u.ann p hp x hx'
+    have : get s.ubds (to, x.2) = some es := by rw [← e]; exact hes
+    rw [nu x.2] at this; cases this
+  · obtain ⟨es, hes, en, hen, het⟩ := hq.r.ann p hp x hx'
+    exact ⟨x.2, es, by rw [← e]; exact hes, en, hen, het⟩
+  · obtain ⟨es, hes, _⟩ := hq.r.ann p hp x hx'
+    have : get s.reds (to, x.2) = some es := by rw [← e]; exact hes
+    rw [nr x.2] at this; cases this
+
+/-- **later_behaviour_equal for every reachable state**: let `s0` be any state in which the four invariants hold (for
+instance one without staking records), `before` ANY history (migrations included), and let a migration of `frm` to `to`
+be accepted in the state `s` reached, under `MigEnv s frm to`.  Then for EVERY later history without a further migration
+the state after the migration simulates `s` (with the target's prior coins handed to the source) under the swap of
+source and target: same answers step by step, swapped states, every matured entry and every reward paid to the target
+(see `later_behaviour_equal`, `later_behaviour_equal_holdings`). -/
+theorem later_behaviour_equal_reachable {s0 : State} (hx : IdxInv s0) (hq : QInv s0) (hsi : SiInv s0 ∧ IdInv s0)
+    (before : List Op) {s' : State} {frm to : Addr} {sigOk : Bool}
+    (h : migrate cfg (run cfg s0 before) frm to sigOk = .ok s') (env : MigEnv (run cfg s0 before) frm to)
+    (later : List Op) (hl : ∀ op ∈ later, isMigrate op = false) :
+    Sim frm to (run cfg (bankExecute cfg (run cfg s0 before) to frm) later) (run cfg s' (later.map (swOp frm to))) ∧
+    trace cfg (bankExecute cfg (run cfg s0 before) to frm) later = trace cfg s' (later.map (swOp frm to)) := by
+  have h2 := siIdInv_run hsi before
+  exact later_behaviour_equal h
+    (migWF_of_invariants (idxInv_run hx before) (qInv_run hq before) h2.1 h2.2 (target_without_staking_records h) env)
+    later hl
 
 
 /-- involvement of `a` in proposal `id`: proposer, depositor, or (for proposals in the voting period) voter -/
